@@ -202,7 +202,7 @@ def arm_table(ctx, prog, label, counting=True):
         eoi = any(e[0] == 'EOI' for e in o.st.events)
         nn, ii = counters(m, o, names)
         for part, base, major, w in intdec.split_by_class(o.st.ranges[ib]):
-            rows.append(dict(part=part, major=major, w=w, res=res, n=n, payload=payload, eoi=eoi, nn=nn, ii=ii, o=o, events=[e[0] for e in o.st.events]))
+            rows.append(dict(part=part, major=major, w=w, res=res, n=n, payload=payload, eoi=eoi, nn=nn, ii=ii, o=o, events=[e[0] for e in o.st.events], pushes=[e[1] for e in o.st.events if e[0] == 'PUSH']))
             key = '%s|ib=%s|%s' % (label, iv_str(part), res)
             lo = iv_min(part)
             hl = oracle.rfc_headlen(lo)
@@ -375,6 +375,44 @@ def twin_agreement(ctx, a_rows, n_rows):
     return n
 
 
+def mode_agreement(ctx, a_rows, s_rows):
+    """a definite container header must announce the same number of items in both bookkeeping modes of the alloc build:
+    counting mode adds F(n) to nrounds, stack mode pushes Some(F(n)) (arrays n, maps 2n); indefinite headers push None"""
+    n = 0
+    incr = {}
+    for r in a_rows:
+        if r['major'] in (4, 5) and r['w'] in (0, 1, 2, 4, 8) and r['res'].startswith('cut') and not r['eoi'] and isinstance(r['nn'], Int) and dict(r['nn'].terms).get('nrounds') == 1:
+            f = lin_add(lin_add(r['nn'], Int.sym('nrounds'), -1), Int.const(1), 1)
+            if f.is_const() and f.c == 0:
+                continue     # empty container
+            incr.setdefault((r['major'], r['w'], iv_str(r['part'])), set()).add(repr(f))
+    for r in s_rows:
+        st = r['o'].st
+        if r['eoi'] or r['major'] not in (4, 5) or not r['pushes']:
+            continue
+        if st.ranges.get('nrounds') != ((0, 0),) or st.ranges.get('irounds') != ((0, 0),):
+            continue        # the mode switch (counting -> stack) pushes the saved counters: checked by the step tables
+        key = 'major%d|w=%s|ib=%s' % (r['major'], r['w'], iv_str(r['part']))
+        if r['w'] == 'indef':
+            if r['pushes'] != ['Option#0()']:
+                ctx.violation('T-SKIP.modes', key, 'an indefinite container opened in stack mode pushes %s instead of None' % r['pushes'], None)
+            else:
+                n += 1
+                ctx.ok('T-SKIP.modes', key)
+            continue
+        want = incr.get((r['major'], r['w'], iv_str(r['part'])))
+        if not want:
+            continue
+        n += 1
+        exp = ['Option#1(%s)' % w for w in sorted(want)]
+        if len(r['pushes']) == 1 and r['pushes'][0] in exp:
+            ctx.ok('T-SKIP.modes', key)
+        else:
+            ctx.violation('T-SKIP.modes', key, 'a %s header with argument a announces %s item(s) in counting mode (nrounds += ..) but pushes %s in stack mode' % (
+                'map' if r['major'] == 5 else 'array', ' / '.join(sorted(want)), r['pushes']), None)
+    ctx.floor('T-SKIP.modes', 'headers compared', n, 10)
+
+
 def run(ctx):
     ctx.rules_run.append('T-SKIP: one-iteration transfer table of skip() from symbolic counters: consumption per initial-byte class = RFC head length (+ payload / break), reserved heads rejected, truncation = end-of-input, tags bypass the counters')
     pa = load.program('core-full')
@@ -383,6 +421,9 @@ def run(ctx):
     pn = load.program('core-none')
     n_rows = arm_table(ctx, pn, 'no-alloc', counting=True)
     ctx.rules_run.append('T-SKIP.twins: the alloc build restricted to counting mode and the no-alloc build have the same transfer function, except where the no-alloc build must refuse (indefinite container inside a definite one)')
+    ctx.rules_run.append('T-SKIP.modes: in the alloc build a container header announces the same number of items in counting mode (added to nrounds) and in stack mode (pushed): arrays n, maps 2n, indefinite = None')
+    if a_rows and s_rows:
+        mode_agreement(ctx, a_rows, s_rows)
     if a_rows and n_rows:
         k = twin_agreement(ctx, a_rows, n_rows)
         ctx.floor('T-SKIP.twins', 'compared cells', k, 40)
